@@ -234,8 +234,10 @@ class RefinementContext(AbstractHashQueueContext):
             event["pid"] = event["args"]["opid"]
             event["args"].pop("opid")
         if "otid" in event["args"]:
-            event["tid"] = event["args"]["otid"]
-            event["args"].pop("otid")
+            otid = event["args"].pop("otid")
+            # a slice that the overlap resolution moved to a spare tid must not return to the lane it left
+            moved = event["tid"] - hash(otid) if isinstance(event["tid"], int) else 0
+            event["tid"] = otid if moved == 0 else f"{otid} ({moved})"
         return event
 
     def update_event_data_light(self, event) -> TraceEvent:
